@@ -3,6 +3,9 @@
 package c06
 
 import (
+	"os"
+	"fmt"
+	"strings"
 	"errors"
 	"net"
 	"sync"
@@ -56,6 +59,22 @@ func ints(b []byte) []int64 {
 }
 
 func setDict(es []any) error {
+	if wedged {
+		return errors.New("wedged")
+	}
+	done := make(chan error, 1)
+	go func() { done <- setDict0(es) }()
+	select {
+	case err := <-done:
+		return err
+	case <-time.After(10 * time.Second):
+		wedged = true
+		fmt.Println("c06: SetDictionary did not return within 10s")
+		return errors.New("wedged")
+	}
+}
+
+func setDict0(es []any) error {
 	message.VerifResetDictionary()
 	d := map[string]uint16{}
 	for _, e := range es {
@@ -92,11 +111,40 @@ func guard(f func() any) (out any) {
 	return f()
 }
 
+// wedged: an earlier call never returned (the codec's process-wide dictionary lock is held for
+// ever, a decoder loops): nothing of this process can be trusted to return any more.
+var wedged bool
+
+// execWatched runs one op under a watchdog: "never loop" is part of the property, so a call that
+// does not return is an observation (RPanic: no model result matches it), not a harness hang.
+func execWatched(o hx.T) any {
+	if wedged {
+		return "RPanic"
+	}
+	limit := 10 * time.Second
+	if strings.HasPrefix(o.Name, "OBig") || o.Name == "OSweep" {
+		limit = 120 * time.Second
+	}
+	done := make(chan any, 1)
+	go func() { done <- ExecOp(o) }()
+	select {
+	case r := <-done:
+		return r
+	case <-time.After(limit):
+		wedged = true
+		fmt.Printf("c06: %s did not return within %v\n", o.Name, limit)
+		return "RPanic"
+	}
+}
+
 // ExecOp runs one op on the real code.
 func ExecOp(o hx.T) any {
 	switch o.Name {
 	case "OEncMsg":
 		if err := setDict(o.List(0)); err != nil {
+			if wedged {
+				return "RPanic"
+			}
 			panic("c06: bad dictionary in OEncMsg: " + err.Error())
 		}
 		mt := o.Term(3)
@@ -111,6 +159,9 @@ func ExecOp(o hx.T) any {
 		})
 	case "ODecMsg":
 		if err := setDict(o.List(0)); err != nil {
+			if wedged {
+				return "RPanic"
+			}
 			panic("c06: bad dictionary in ODecMsg: " + err.Error())
 		}
 		data := exact(o.Ints(2))
@@ -594,7 +645,7 @@ func encMsgOp(cfg *hx.Config, tags map[string]bool) (hx.T, []byte) {
 	op := hx.C("OEncMsg", es, compress, ints(defl), m)
 	// also produce the bytes for the decode stream
 	var enc []byte
-	res := ExecOp(op)
+	res := execWatched(op)
 	if l, ok := res.(late); ok {
 		res = l()
 	}
@@ -678,7 +729,7 @@ func emit(cfg *hx.Config, kind string, ops []hx.T, tags map[string]bool) {
 	obs := make([]any, len(ops))
 	nt := false
 	for i, o := range ops {
-		obs[i] = ExecOp(o)
+		obs[i] = execWatched(o)
 	}
 	for i := range obs {
 		if l, ok := obs[i].(late); ok {
@@ -689,7 +740,18 @@ func emit(cfg *hx.Config, kind string, ops []hx.T, tags map[string]bool) {
 		}
 	}
 	cfg.Emit(hx.Case{Kind: kind, Ops: ops, Obs: obs, Nontrivial: nt, Tags: tagList(tags)})
+	if wedged {
+		// the case that wedged the process has been emitted (its observation is unmatchable);
+		// nothing after it would be meaningful
+		wedgedCases++
+		if wedgedCases >= 3 {
+			cfg.Close()
+			os.Exit(0)
+		}
+	}
 }
+
+var wedgedCases int
 
 func Run(cfg *hx.Config) error {
 	if cfg.In != "" {
